@@ -314,9 +314,10 @@ def run_case(case):
         cf = CFS[case['c']]
         tests = catalog_tests()
 
-        def mk(reg, order, cellperm=ident):
-            cats = [fixtures.catalog(events(cf[j], 10 * j), region=reg, catalog_id=n) for n, j in enumerate(order)]
-            return CatalogForecast(catalogs=cats, n_cat=len(cats), region=reg, name='cf')
+        def mk(reg, order, cellperm=ident, form='list', catreg=None):
+            cats = [fixtures.catalog(events(cf[j], 10 * j), region=(catreg if catreg is not None else reg), catalog_id=n) for n, j in enumerate(order)]
+            given = {'list': cats, 'iter': iter(cats), 'gen': (c for c in cats), 'tuple': tuple(cats)}[form]
+            return CatalogForecast(catalogs=given, n_cat=len(cats), region=reg, name='cf')
         reg0 = region(ident)
         base = {}
         J = len(cf)
@@ -351,6 +352,18 @@ def run_case(case):
                 got = call(fn, mk(reg0, p), fixtures.catalog(events(obs_pairs, 500), region=reg0))
                 evals += 1
                 cmp(site, kind_, got, base[site], 'synthetic-catalog', p, True)
+        # (c') the synthetic catalogs handed over as a one-shot iterator, a generator expression, a tuple (every order)
+        for form in ('iter', 'gen', 'tuple'):
+            for p in itertools.permutations(range(J)):
+                states += 1
+                nontriv += 1
+                for site, fn, kind_ in tests:
+                    got = call(fn, mk(reg0, p, form=form), fixtures.catalog(events(obs_pairs, 500), region=reg0))
+                    evals += 1
+                    before = len(failures)
+                    cmp(site, kind_, got, base[site], 'synthetic-catalog', p, True)
+                    for f in failures[before:]:
+                        f['signature'] += f',catalogs-given-as-{form}'
         # (a) all permutations of the observed events (seeded tests must be bit-identical)
         for p in sorted(set(itertools.permutations(range(len(obs_pairs))))):
             ev = events(obs_pairs, 500)
@@ -369,6 +382,13 @@ def run_case(case):
                 got = call(fn, mk(reg, range(J)), fixtures.catalog(events(obs_pairs, 500), region=reg))
                 evals += 1
                 cmp(site, kind_, got, base[site], 'cell', perm, kind_ == 'free')
+                # the synthetic catalogs already carry a region of their own: the same cells in the ORIGINAL order
+                got = call(fn, mk(reg, range(J), catreg=region(ident)), fixtures.catalog(events(obs_pairs, 500), region=reg))
+                evals += 1
+                before = len(failures)
+                cmp(site, kind_, got, base[site], 'cell', perm, kind_ == 'free')
+                for f in failures[before:]:
+                    f['signature'] += ',catalogs-bound-to-another-cell-order'
     if only:
         failures = [f for f in failures if f['signature'].startswith(only['site'] + '|')] or failures
     seen, uniq = set(), []
